@@ -25,7 +25,7 @@ ASSUMPTIONS = [
     "EML exporter: qualified attributes, prefixes and namespace maps are not part of its contract (it predates them); the "
     "boilerplate attributes it adds to an eml root are ignored",
 ]
-REQUIRED = ["exported_again_after_in_place_edits", "fragment_exports", "general_exports", "eml_exports", "expat_accepts", "libxml2_accepts", "reimports", "special:<:content", "special:&:content",
+REQUIRED = ["vocabulary_attribute_cases", "vocabulary_content_cases", "exported_again_after_in_place_edits", "fragment_exports", "general_exports", "eml_exports", "expat_accepts", "libxml2_accepts", "reimports", "special:<:content", "special:&:content",
             "special:\":attribute", "special:<:attribute", "special:&:attribute", "special:&:extras", "special:<:tail", "special:&:uri",
             "trees_with_nested_declarations"]
 EXHAUSTIVE = {"quick": False, "thorough": False}
@@ -236,8 +236,41 @@ def judge_eml(ctx, root, history=None):
             stack.append((c, k, f"{where}[{i}]/", False))
 
 
+def vocabulary_attribute_sweep(ctx):
+    """Every element of the vocabulary with every attribute its rule declares set to every word of the domain (schema defaults such as
+    phonetype="voice" among them): both exporters write the attribute, whatever they think of its value."""
+    from vlib import domain
+    from vlib.emlkit import mrule
+    for e in mrule.node_names():
+        rn = mrule.node_mappings[e]
+        for a in emlkit.rules_table().get(rn, [{}])[0]:
+            for w in domain.ATTRIBUTE_WORDS:
+                n = Node(e, content="x")
+                n.add_attribute(a, w)
+                ctx.case(judge_eml, ctx, n)
+                ctx.case(judge_general, ctx, n)
+                ctx.count("vocabulary_attribute_cases")
+                emlkit.discard(n)
+
+
+def vocabulary_content_sweep(ctx):
+    """Every element name with the contents the domain is full of (identifiers, numbers in every spelling, entity-looking text)."""
+    from vlib import domain
+    from vlib.emlkit import mrule
+    words = [w for w in domain.CONTENT_WORDS if not any(x in w for x in ("&amp;", "&lt;", "&gt;", "<para>"))]
+    for i, e in enumerate(mrule.node_names()):
+        for w in words[i % 3::3]:
+            n = Node(e, content=w)
+            ctx.case(judge_general, ctx, n)
+            ctx.count("vocabulary_content_cases")
+            emlkit.discard(n)
+
+
 def run(ctx, params):
     rng = ctx.rng
+    if params.get("salt", 0) == 0:
+        ctx.case(vocabulary_attribute_sweep, ctx, seconds=600.0)
+        ctx.case(vocabulary_content_sweep, ctx, seconds=600.0)
     for i in range(params["trees"]):
         for_eml = i % 3 == 2
         root = build(rng, rng.choice([1, 2, 4, 8, 16, 40]), for_eml)
